@@ -143,4 +143,48 @@ theorem sample_fixed_on_counterexample :
 example : cexEds.width = 2 ^ 1 ∧ Dah.ofEds toyH cexEds = .ok cexDah ∧
     accepted (verify toyH cexSample 0 1 cexDah) = true := ⟨rfl, rfl, by decide⟩
 
+/-- a toy hash with 32-byte output -/
+def toyH32 : HashFn := fun x => (x ++ List.replicate 32 0).take 32
+
+theorem nonvacuity_toyH32_len : HashLen toyH32 := by
+  intro x; simp [toyH32, HASH_LEN, List.length_take]
+
+/-- 2×2 square of 512-byte shares; the original-data share has the all-zero (valid, version 0) namespace -/
+def okEds : Eds := Eds.ofRaw 2 [List.replicate 512 0, List.replicate 512 1, List.replicate 512 2, List.replicate 512 3]
+def okDah : Dah := match Dah.ofEds toyH32 okEds with | .ok d => d | .error _ => default
+
+def isOkNs (r : Except Lumina.Model.Namespace.Err Bytes) : Bool := match r with | .ok _ => true | .error _ => false
+
+set_option maxRecDepth 20000 in
+theorem nonvacuity_okEds_valid : ValidSquare okEds 1 where
+  width := rfl
+  kpos := by decide
+  kle := by decide
+  flags := by
+    have h : ∀ r, r < 2 → ∀ c, c < 2 →
+        (match okEds.share? r c with | some sh => sh.isParity == !isOdsSquare r c okEds.width | none => true) = true := by
+      decide
+    intro r c sh hr hc hs
+    have := h r hr c hc
+    rw [hs] at this
+    simpa using this
+  size := by
+    have h : okEds.shares.all (fun sh => sh.data.length == SHARE_SIZE) = true := by decide
+    intro sh hm
+    have := List.all_eq_true.mp h sh hm
+    simpa using this
+  ns := by
+    have h : okEds.shares.all (fun sh => sh.isParity || isOkNs (Lumina.Model.Namespace.fromRaw (sh.data.take NS_SIZE))) = true := by
+      decide
+    intro sh hm hp
+    have := List.all_eq_true.mp h sh hm
+    simp only [hp, Bool.false_or] at this
+    cases hf : Lumina.Model.Namespace.fromRaw (sh.data.take NS_SIZE) with
+    | ok n => exact ⟨n, rfl⟩
+    | error er => simp [hf, isOkNs] at this
+
+set_option maxRecDepth 20000 in
+/-- the hypotheses of `sample_complete` hold of a concrete hash, square and DAH -/
+example : HashLen toyH32 ∧ ValidSquare okEds 1 ∧ Dah.ofEds toyH32 okEds = .ok okDah := ⟨nonvacuity_toyH32_len, nonvacuity_okEds_valid, rfl⟩
+
 end Lumina.Props.C04
